@@ -31,7 +31,7 @@ metric_vals = st.integers(1, 24).map(lambda k: k / 4.0)
 @st.composite
 def strategy_impl(draw, tier):
     max_n = 6 if tier == "quick" else 9
-    axes = draw(gen.layouts(max_n=max_n, max_cells=300 if tier == "quick" else 700))
+    axes = draw(gen.layouts(max_n=max_n, max_cells=300 if tier == "quick" else 700, big_n=True))
     if all(len(a["positions"]) == 1 for a in axes):
         k = draw(st.integers(0, len(axes) - 1))
         axes[k]["positions"].append(draw(st.sampled_from(gen.OTHER_POS)))
